@@ -28,4 +28,5 @@ def c17_property_name_instance(what, case):
     """F12: a propertyNames error (whose recorded instance is a property NAME) is filed at an object's node, the node
     then takes that string for the instance, and indexing an error-free member of the object raises TypeError"""
     return (what == "index_error_free_element" and case.get("has_property_name_error") is True
-            and all(p.get("out") == "TypeError" for p in case.get("index_probes", [])))
+            and all(p.get("out") == "TypeError" and p.get("p") in case.get("property_name_error_paths", [])
+                    for p in case.get("index_probes", [])))
